@@ -635,6 +635,13 @@ pixman_transform_bounds (const struct pixman_transform *matrix,
 	if (!pixman_transform_point (matrix, &v[i]))
 	    return FALSE;
 
+	/* pixman_fixed_ceil would wrap, and the box could not hold 32768 */
+	if (v[i].vector[0] > pixman_max_fixed_48_16 - pixman_fixed_1_minus_e ||
+	    v[i].vector[1] > pixman_max_fixed_48_16 - pixman_fixed_1_minus_e)
+	{
+	    return FALSE;
+	}
+
 	x1 = pixman_fixed_to_int (v[i].vector[0]);
 	y1 = pixman_fixed_to_int (v[i].vector[1]);
 	x2 = pixman_fixed_to_int (pixman_fixed_ceil (v[i].vector[0]));
